@@ -1,0 +1,3 @@
+//! Verification hooks: re-exports of crate-internal functions for the external
+//! correspondence harness. Compiled only with `--cfg crypto_bigint_verif`.
+#![allow(missing_docs, clippy::missing_docs_in_private_items)]
